@@ -36,6 +36,7 @@ RULE = (
     "Non-trivial = >= 2 keys of equal numel but different shapes, or a 0-d key next to an n-d key, or an unreachable "
     "input, or batch > chunk. Distinct = distinct case description."
     " A quarter of the Diagonalize / Stack / Select cases carry inf, -inf, nan, -0.0, 3e38 or denormal entries (compared NaN-safe, position by position)."
+    " Half of the Aggregate cases pass Jacobians that are column views of ONE matrix laid out in creation order; a quarter of the Grad / Jac cases allow an input that is also an output."
 )
 ASSUMPTIONS = ["the building blocks are imported from torchjd.autojac._transform (the anchored, private module)"]
 LEVEL_TEXT = "Generated-input search against NumPy references of each transform's linear map. No proof."
